@@ -126,7 +126,7 @@ func (p *Parser) Parse() (al align.Alignment, err error) {
 			break
 		}
 
-		if tok == IDENT || tok == NUMERIC {
+		if tok == IDENT || tok == NUMERIC || tok == STOCKHOLM {
 			name := lit
 			tok, lit = p.scanIgnoreWhitespace()
 			if tok != IDENT {
